@@ -34,8 +34,10 @@ GNext ==
                  \/ MakeToken(o) /\ Step("token", o, 0)
                  \/ FireToken(o) /\ Step("fire", o, 0)
                  \/ KeyDrop(o) /\ Step("keydrop", o, 0)
-            \/ \E f \in Fds : Feed(f) /\ Step("feed", o1, f)
-            \/ \E f \in Fds : Drain(f) /\ Step("drain", o1, f)
+            \* readiness is only caused while somebody waits for it (otherwise nothing could be submitted on that
+            \* descriptor any more: the harness submits receivers on empty and senders on full sockets)
+            \/ \E f \in Fds : q[f].r # <<>> /\ Feed(f) /\ Step("feed", o1, f)
+            \/ \E f \in Fds : q[f].w # <<>> /\ Drain(f) /\ Step("drain", o1, f)
             \/ Poll /\ Step("poll", o1, 0)
             \/ DropDriver /\ Step("dropdrv", o1, 0)
             \/ DropChan /\ Step("dropchan", o1, 0)
